@@ -472,6 +472,16 @@ namespace awkward {
         }
         i++;
       } while (i != nexttotry_);
+      // pointer not known: the key may still be known by its text
+      // (registered by field_check or through another pointer)
+      for (int64_t j = 0;  j < keys_size_;  j++) {
+        if (keys_[(size_t)j].compare(key) == 0) {
+          pointers_[(size_t)j] = key;
+          nextindex_ = j;
+          nexttotry_ = j + 1;
+          return shared_from_this();
+        }
+      }
       nextindex_ = keys_size_;
       nexttotry_ = 0;
       if (length_ == 0) {
